@@ -344,3 +344,98 @@ func VH22f_device_oneway() {
 		d.Close()
 	}
 }
+
+// VH22g_hold: a message received over a real transport is kept by the
+// application while more traffic of the same size flows in both directions
+// (pool Get may hand out any pooled buffer): its header and body never
+// change. Fan-out patterns deliver the same publication to two receivers:
+// each holds its own copy and may scribble on it without the other noticing.
+func VH22g_hold() {
+	kinds := [][2]string{{"pair", "pair"}, {"pub", "sub"}, {"bus", "bus"}, {"req", "rep"}, {"xpair", "xpair"}}
+	k := kinds[verif.Choice("kind", len(kinds))]
+	lab := "C17/" + trans[verif.Param("tran", 0)] + "/" + k[0]
+	tx := vp.New(k[0])
+	rx1, rx2 := vp.New(k[1]), vp.New(k[1])
+	for _, r := range []mangos.Socket{rx1, rx2} {
+		if k[1] == "sub" {
+			r.SetOption(mangos.OptionSubscribe, []byte{})
+		}
+	}
+	a1, o1 := e2eAddr("61")
+	verif.Assert(tx.ListenOptions(a1, o1) == nil, lab+"/listen")
+	verif.Assert(rx1.DialOptions(a1, o1) == nil, lab+"/dial-1")
+	fan := k[0] == "pub" || k[0] == "bus"
+	if fan {
+		verif.Assert(rx2.DialOptions(a1, o1) == nil, lab+"/dial-2")
+	}
+	verif.Quiesce()
+	body := verif.Bytes("body", 1+verif.Choice("len", 3))
+	verif.Assert(tx.Send(body) == nil, lab+"/send")
+	verif.Quiesce()
+	recv := func(s mangos.Socket) *mangos.Message {
+		var m *mangos.Message
+		var err error
+		g := verif.Go("recv", func() { m, err = s.RecvMsg() })
+		verif.Quiesce()
+		if !g.Done() || err != nil {
+			return nil
+		}
+		return m
+	}
+	m1 := recv(rx1)
+	verif.Assert(m1 != nil, lab+"/not-received")
+	if m1 == nil {
+		return
+	}
+	verif.Owned(m1)
+	verif.Assert(verif.BytesEq(m1.Body, body), lab+"/body-changed-in-transit")
+	h1 := append([]byte{}, m1.Header...)
+	var m2 *mangos.Message
+	if fan {
+		m2 = recv(rx2)
+		verif.Assert(m2 != nil, lab+"/second-receiver-missed-the-publication")
+		if m2 != nil {
+			verif.Owned(m2)
+			// the second receiver scribbles on ITS message
+			for i := range m2.Body {
+				m2.Body[i] ^= 0xff
+			}
+			verif.Assert(verif.BytesEq(m1.Body, body), lab+"/receivers-share-one-buffer")
+		}
+	}
+	// more traffic of the same size, both ways where the pattern allows
+	for i := 0; i < 2; i++ {
+		if k[0] == "req" {
+			rx1.Send([]byte{'r', byte(i)})
+			verif.Quiesce()
+			if m := recv(tx); m != nil {
+				m.Free()
+			}
+		}
+		other := verif.Bytes("later", len(body))
+		tx.Send(other)
+		verif.Quiesce()
+		if k[0] != "req" {
+			if m := recv(rx1); m != nil {
+				m.Free()
+			}
+		}
+		if k[0] == "pair" || k[0] == "bus" || k[0] == "xpair" {
+			rx1.Send(verif.Bytes("back", len(body)))
+			verif.Quiesce()
+			if m := recv(tx); m != nil {
+				m.Free()
+			}
+		}
+	}
+	verif.Assert(len(m1.Body) == len(body) && verif.BytesEq(m1.Body, body), lab+"/application-owned-message-changed")
+	verif.Assert(len(m1.Header) == len(h1) && verif.BytesEq(m1.Header, h1), lab+"/application-owned-message-changed")
+	verif.Reach("held")
+	m1.Free()
+	if m2 != nil {
+		m2.Free()
+	}
+	tx.Close()
+	rx1.Close()
+	rx2.Close()
+}
